@@ -368,7 +368,8 @@ def gen_toc_doc(rng, levels=None, simple=False):
     return src, cfg, explicit
 
 
-FNIDS = ['1', '2', '3', '10', 'a', 'A', 'b', 'note', 'a b', 'é', 'x:y', 'x-y', 'fnref2', '1-a', 'a.b', '*', '&', '"']
+# incl. labels that contain the id prefixes (`fn`, `fnref`) and each separator character
+FNIDS = ['1', '2', '3', '10', 'a', 'A', 'b', 'note', 'a b', 'é', 'x:y', 'x-y', 'fnref2', '1-a', 'a.b', '*', '&', '"', 'fn1', 'fn', 'boiling-fn', 'fn:fnref', 'fn_2']
 
 
 def gen_fn_doc(rng):
